@@ -1116,30 +1116,45 @@ fn fragment_guard(g: &Global, fns: &[FnSrc], spec: &ModSpec, out: &mut String, e
     let mut body = vec![];
     let mut text = String::new();
     let mut done = false;
-    for s in &f.block.stmts {
-        match s {
-            Stmt::Local(l) => {
-                if let Pat::Ident(i) = &l.pat {
-                    let n = i.ident.to_string();
-                    if n == "prev_ok" || n == "flush_finish_once" {
-                        text.push_str(&s.to_token_stream().to_string());
-                        if let Err(e) = tr.stmts(std::slice::from_ref(s), &Ty::Bool, 2, &mut body, false) { errors.push(format!("{}: guard fragment: {}", spec.path, e)); return; }
-                    }
-                }
-            }
-            Stmt::Expr(Expr::If(i), _) => {
-                if i.then_branch.to_token_stream().to_string().contains("BadParam") {
-                    text.push_str(&i.cond.to_token_stream().to_string());
-                    match tr.ex(&i.cond, &Ty::Bool) { Ok((c, _)) => { body.push(format!("  return {}", c)); done = true; } Err(e) => { errors.push(format!("{}: guard fragment: {}", spec.path, e)); return; } }
-                    break;
-                }
-            }
-            _ => {}
+    // the guard: the first top-level `if` whose then-branch mentions BadParam; the locals it needs: every
+    // `let <ident> = <expr>;` before it whose name the condition uses, directly or through other such locals
+    // (whatever they are called: a rewrite of the condition through differently named helpers is still read)
+    fn idents_of(e: &Expr) -> Vec<String> {
+        use syn::visit::Visit;
+        struct V(Vec<String>);
+        impl<'ast> Visit<'ast> for V {
+            fn visit_expr_path(&mut self, p: &'ast ExprPath) { if p.path.segments.len() == 1 { self.0.push(p.path.segments[0].ident.to_string()); } }
         }
+        let mut v = V(vec![]); v.visit_expr(e); v.0
+    }
+    let guard_idx = f.block.stmts.iter().position(|s| matches!(s, Stmt::Expr(Expr::If(i), _) if i.then_branch.to_token_stream().to_string().contains("BadParam")));
+    if let Some(gi) = guard_idx {
+        let cond = match &f.block.stmts[gi] { Stmt::Expr(Expr::If(i), _) => &*i.cond, _ => unreachable!() };
+        let mut needed: Vec<String> = idents_of(cond);
+        let mut keep = vec![false; gi];
+        for k in (0..gi).rev() {
+            if let Stmt::Local(l) = &f.block.stmts[k] {
+                if let (Pat::Ident(i), Some(init)) = (&l.pat, &l.init) {
+                    if needed.contains(&i.ident.to_string()) { keep[k] = true; needed.extend(idents_of(&init.expr)); }
+                }
+            }
+        }
+        for k in 0..gi {
+            if keep[k] {
+                let s = &f.block.stmts[k];
+                text.push_str(&s.to_token_stream().to_string());
+                if let Err(e) = tr.stmts(std::slice::from_ref(s), &Ty::Bool, 2, &mut body, false) { errors.push(format!("{}: guard fragment: {}", spec.path, e)); return; }
+            }
+        }
+        text.push_str(&cond.to_token_stream().to_string());
+        match tr.ex(cond, &Ty::Bool) { Ok((c, _)) => { body.push(format!("  return {}", c)); done = true; } Err(e) => { errors.push(format!("{}: guard fragment: {}", spec.path, e)); return; } }
     }
     if !done { errors.push(format!("{}: guard fragment: the BadParam guard of compress_inner was not found", spec.path)); return; }
-    let free: Vec<String> = tr.free_used.iter().map(|(n, _)| n.clone()).collect();
-    if free != vec!["d_params_prev_return_status".to_string(), "d_params_flush".to_string(), "flush".to_string()] {
+    let mut free: Vec<String> = tr.free_used.iter().map(|(n, _)| n.clone()).collect();
+    free.sort();
+    let mut want = vec!["d_params_prev_return_status".to_string(), "d_params_flush".to_string(), "flush".to_string()];
+    want.sort();
+    if free != want {
         errors.push(format!("{}: guard fragment: unexpected inputs {:?}", spec.path, free)); return;
     }
     writeln!(out, "-- fragment: usage guard of compress_inner ({}:{}); true = BadParam", spec.path, f.span.start().line).unwrap();
